@@ -111,3 +111,43 @@ Lemma tree_dropout_mode p t lp sw r x f :
   flag_at t lp = Some f ->
   tree_dropout p t lp sw r x = Some (dropout p (last_switch lp f sw) r x).
 Proof. intro H. unfold tree_dropout. rewrite (flag_apply_switches lp sw t f H). reflexivity. Qed.
+
+(* ---- one Dropout object called several times: backward of call k goes through call k's own mask ---- *)
+Lemma dstep_nodes_grow p lp s e : exists extra, dnodes (fst (dstep p lp s e)) = dnodes s ++ extra.
+Proof.
+  destruct e as [q b|r x|k g]; cbn.
+  - exists []. rewrite app_nil_r. reflexivity.
+  - destruct (flag_at (dtree s) lp) as [[|]|]; cbn; eexists; try reflexivity. rewrite app_nil_r. reflexivity.
+  - destruct (nth_error (dnodes s) k) as [[m|]|]; cbn; exists []; rewrite app_nil_r; reflexivity.
+Qed.
+
+Lemma drun_nodes_grow p lp h : forall s, exists extra, dnodes (drun p lp s h) = dnodes s ++ extra.
+Proof.
+  induction h as [|e h IH]; intro s; [exists []; rewrite app_nil_r; reflexivity|].
+  cbn [drun]. destruct (dstep_nodes_grow p lp s e) as [x1 E1]. destruct (IH (fst (dstep p lp s e))) as [x2 E2].
+  exists (x1 ++ x2). rewrite E2, E1, app_assoc. reflexivity.
+Qed.
+
+Lemma drun_app p lp a : forall s b, drun p lp s (a ++ b) = drun p lp (drun p lp s a) b.
+Proof. induction a as [|e a IH]; intros s b; [reflexivity|]. cbn [app drun]. apply IH. Qed.
+
+(* whatever happens between the forward and the backward (other forwards of the same layer with other draws and
+   shapes, mode switches anywhere, other backward calls), out_k.backward(g) delivers g * (mask of call k) *)
+Lemma backward_uses_own_mask p lp s h1 r x h2 g :
+  flag_at (dtree (drun p lp s h1)) lp = Some true ->
+  snd (dstep p lp (drun p lp s (h1 ++ DFwd r x :: h2)) (DBwd (length (dnodes (drun p lp s h1))) g))
+  = DGrad (dropout_bwd p r g).
+Proof.
+  intro Hm. rewrite drun_app. cbn [drun]. set (s1 := drun p lp s h1) in *.
+  assert (E : dnodes (fst (dstep p lp s1 (DFwd r x))) = dnodes s1 ++ [Some (mask_tensor p r)]).
+  { cbn. rewrite Hm. reflexivity. }
+  destruct (drun_nodes_grow p lp h2 (fst (dstep p lp s1 (DFwd r x)))) as [extra E2].
+  remember (drun p lp (fst (dstep p lp s1 (DFwd r x))) h2) as s2 eqn:Hs2. clear Hs2.
+  cbn [dstep]. rewrite E2, E, <- app_assoc. cbn [app].
+  rewrite nth_error_app2 by lia. rewrite Nat.sub_diag. cbn. reflexivity.
+Qed.
+
+(* and the forward value of every call is computed with that call's own draw *)
+Lemma forward_uses_own_draw p lp s r x :
+  flag_at (dtree s) lp = Some true -> snd (dstep p lp s (DFwd r x)) = DOut (dropout p true r x).
+Proof. intro H. cbn. rewrite H. reflexivity. Qed.
